@@ -17,6 +17,7 @@ Source anchors (file: function ↦ model definition)
   ↦ `cSum`, `cF / cS / cCv` (the three mode functions are the *generated* `ThermalC.get_*`)
 * `ThermalProperties.temperatures` setter ↦ `keepTemps`
 * `number_of_modes`, `number_of_integrated_modes` ↦ `numModes`, `numIntegrated`
+* `ThermalProperties.set_temperature_range` (+ numpy's `arange` fill rule) ↦ `tempRange`, `arange`
 
 The per-mode C functions are not modelled by hand: they are `Gen/ThermalC.lean`.
 
@@ -102,10 +103,10 @@ def selSum {nb : Nat} (cut : α) (g : α → α) (fr : Fin nb → α) : α :=
 def meshSum {nq nb : Nat} (w : Fin nq → α) (fr : Fin nq → Fin nb → α) (cut : α) (g : α → α) : α :=
   sumFin nq fun q => selSum cut g (fr q) * w q
 
-/-- `_calculate_thermal_property` with projection: component `j` of
-`Σ_q np.dot(eigvecs2[:, cond], func(freqs[cond])) * w_q` -/
-def projSum {nq nb : Nat} (w : Fin nq → α) (fr : Fin nq → Fin nb → α) (e2 : Fin nq → Fin nb → Fin nb → α)
-    (cut : α) (g : α → α) (j : Fin nb) : α :=
+/-- `_calculate_thermal_property` with projection: component `j` (row of the eigenvector matrix, `nr = 3·natom`
+rows) of `Σ_q np.dot(eigvecs2[:, cond], func(freqs[cond])) * w_q`; the columns are the (selected) bands -/
+def projSum {nq nr nb : Nat} (w : Fin nq → α) (fr : Fin nq → Fin nb → α) (e2 : Fin nq → Fin nr → Fin nb → α)
+    (cut : α) (g : α → α) (j : Fin nr) : α :=
   sumFin nq fun q => (sumFin nb fun ν => if cut < fr q ν then e2 q j ν * g (fr q ν) else 0) * w q
 
 def wsum {nq : Nat} (w : Fin nq → α) : α := sumFin nq w
@@ -139,8 +140,8 @@ def pyCv {nq nb : Nat} (cf : ThermalEnv α → α → α → Bool → α) (E : T
    else meshSum w fr cut (fun f => modeZero E t f cl)) / wsum w * evToKJmol
 
 /-- projected variants (component `j`) -/
-def pyProj {nq nb : Nat} (hot cold : α → α) (evToKJmol : α) (w : Fin nq → α)
-    (fr : Fin nq → Fin nb → α) (e2 : Fin nq → Fin nb → Fin nb → α) (cut t : α) (j : Fin nb) : α :=
+def pyProj {nq nr nb : Nat} (hot cold : α → α) (evToKJmol : α) (w : Fin nq → α)
+    (fr : Fin nq → Fin nb → α) (e2 : Fin nq → Fin nr → Fin nb → α) (cut t : α) (j : Fin nr) : α :=
   (if 0 < t then projSum w fr e2 cut hot j else projSum w fr e2 cut cold j) / wsum w * evToKJmol
 
 /-- zero-point energy of `ThermalProperties.__init__` [kJ/mol]:
@@ -176,5 +177,42 @@ def cCv {nq nb : Nat} (E : ThermalEnv α) (evToKJmol : α) (cl : Bool) (w : Fin 
 def keepTemps (ts : List α) : List α := ts.filter fun t => !(decide (t < 0))
 
 end mesh
+
+section grid
+variable {α : Type} [Add α] [Sub α] [Mul α] [Div α] [OfNat α 0] [OfNat α 2] [OfNat α 10] [OfNat α 1000]
+  [LT α] [∀ a b : α, Decidable (a < b)]
+
+/-- what the grid construction needs beyond field operations: `ceil` to a length, and `i ↦ (double) i` -/
+structure GridEnv (α : Type) where
+  ceil : α → Nat
+  ofNat : Nat → α
+
+/-- `np.arange(start, stop, step, dtype="double")`: length `ceil((stop - start)/step)`, element
+`i` is `start + i*delta` with `delta = (start + step) - start` (numpy fills from the first two elements) -/
+def arange (G : GridEnv α) (start stop step : α) : List α :=
+  let n := G.ceil ((stop - start) / step)
+  let delta := (start + step) - start
+  (List.range n).map fun i => start + G.ofNat i * delta
+
+/-- `ThermalProperties.set_temperature_range(t_min, t_max, t_step)` (also reached through the deprecated keywords of
+`run` and through `Phonopy.run_thermal_properties(t_min, t_max, t_step)`):
+defaults 10 / 1000 / 10; negative `t_min` → 0; `t_max` not above `t_min` → `t_min`; non-positive step → 10;
+`np.arange(t_min, t_max + t_step/2, t_step)` -/
+def tempRange (G : GridEnv α) (tmin tmax tstep : Option α) : List α :=
+  let t0 : α := match tmin with
+    | none => 10
+    | some t => if t < 0 then 0 else t
+  let t1 : α := match tmax with
+    | none => 1000
+    | some t => if t0 < t then t else t0
+  let dt : α := match tstep with
+    | none => 10
+    | some t => if 0 < t then t else 10
+  arange G t0 (t1 + dt / 2) dt
+
+end grid
+
+def floatGrid : GridEnv Float :=
+  { ceil := fun x => if x > 0 then (Float.ceil x).toUInt64.toNat else 0, ofNat := Float.ofNat }
 
 end PhononModel.Thermal
